@@ -3,6 +3,7 @@ package checks
 import (
 	"errors"
 	"fmt"
+	"verif/harness/refcbor"
 
 	cose "github.com/veraison/go-cose"
 
@@ -400,6 +401,53 @@ func (e *c01env) signN(r *mon.Rand, in map[string]any, i int, payload, ext []byt
 			e.fail(fmt.Sprintf("signature-%d-verify-standalone", j), kind, err, in)
 			return
 		}
+	}
+	// the same message as a peer with another CBOR encoder would send it (a wider head on the body's
+	// protected byte string; the signed content is unchanged): it verifies as a whole and signer by signer,
+	// and a slot signed again through Signature.Sign with the received body bytes verifies through
+	// SignMessage.Verify (the two API levels agree on what is signed)
+	if t, perr := gen.ParseTree(wire); perr == nil && t.Root.Major == refcbor.Tag && len(t.Root.Kids[0].Kids) == 4 {
+		bp := t.Root.Kids[0].Kids[0]
+		bp.Width = refcbor.FitWidth(uint64(len(bp.Str)), mon.Pick(r, 2, 3, 5, 9))
+		wide := t.Seal()
+		var dw cose.SignMessage
+		if err = dw.UnmarshalCBOR(wide); err != nil {
+			e.fail("unmarshal-wide-body-head", kind, err, in)
+			return
+		}
+		if guard(rec, "SignMessage.Verify(wide body head)", in, func() { err = dw.Verify(ext, verifiers...) }) {
+			return
+		}
+		if err != nil {
+			e.fail("verify-wide-body-head", kind, err, in)
+			return
+		}
+		rawBody, _ := dw.Headers.MarshalProtected()
+		for j, s := range dw.Signatures {
+			if guard(rec, "Signature.Verify(wide body head)", in, func() { err = s.Verify(verifiers[j], rawBody, payload, ext) }) {
+				return
+			}
+			if err != nil {
+				e.fail(fmt.Sprintf("signature-%d-verify-standalone-wide-body-head", j), kind, err, in)
+				return
+			}
+		}
+		dw.Signatures[0].Signature = nil
+		if guard(rec, "Signature.Sign(wide body head)", in, func() { err = dw.Signatures[0].Sign(gen.Entropy, signers[0], rawBody, payload, ext) }) {
+			return
+		}
+		if err != nil {
+			e.fail("signature-0-sign-again-standalone", kind, err, in)
+			return
+		}
+		if guard(rec, "SignMessage.Verify(after stand-alone signing)", in, func() { err = dw.Verify(ext, verifiers...) }) {
+			return
+		}
+		if err != nil {
+			e.fail("verify-after-standalone-signing-wide-body-head", kind, err, in)
+			return
+		}
+		rec.Event("wide-body-head-chains")
 	}
 	rec.Event("chain-complete")
 	rec.Class(fmt.Sprintf("sign/n=%d/payload=%s/ext=%s/algs=%s", n, payloadClass(len(payload)), gen.ExternalClass(ext), algs))
